@@ -15,12 +15,15 @@ type Tape struct {
 	KeepLabels bool
 }
 
+//go:norace
 func NewTape(seed uint64) *Tape { return &Tape{state: seed} }
 
+//go:norace
 func ReplayTape(vals []uint32) *Tape {
 	return &Tape{replay: true, vals: vals}
 }
 
+//go:norace
 func splitmix(x *uint64) uint64 {
 	*x += 0x9E3779B97F4A7C15
 	z := *x
@@ -30,12 +33,16 @@ func splitmix(x *uint64) uint64 {
 }
 
 // Mix derives a sub-seed.
+//
+//go:norace
 func Mix(a, b uint64) uint64 {
 	x := a ^ (b * 0xD6E8FEB86659FD93)
 	return splitmix(&x)
 }
 
 // Draw returns a value in [0,n). n<=1 returns 0 without consuming the tape.
+//
+//go:norace
 func (t *Tape) Draw(n int, label string) int {
 	if n <= 1 {
 		return 0
@@ -58,6 +65,8 @@ func (t *Tape) Draw(n int, label string) int {
 }
 
 // Chance is true with probability num/den; tape value 0 means false.
+//
+//go:norace
 func (t *Tape) Chance(num, den int, label string) bool {
 	if num <= 0 {
 		return false
@@ -66,6 +75,8 @@ func (t *Tape) Chance(num, den int, label string) bool {
 }
 
 // Range returns a value in [lo,hi].
+//
+//go:norace
 func (t *Tape) Range(lo, hi int, label string) int {
 	if hi <= lo {
 		return lo
@@ -74,7 +85,11 @@ func (t *Tape) Range(lo, hi int, label string) int {
 }
 
 // Values returns the values consumed so far (recorded or replayed, reduced).
+//
+//go:norace
 func (t *Tape) Values() []uint32 { return append([]uint32(nil), t.used...) }
 
 // Pos is the number of draws made.
+//
+//go:norace
 func (t *Tape) Pos() int { return t.pos }
